@@ -51,7 +51,8 @@ class Build:
             hdir = f'{WORK}/harness-reloc'
             sh(f'rm -rf {hdir} && mkdir -p {WORK} && cp -r {HARNESS} {hdir}', check=True)
             ct = f'{hdir}/dexlib/Cargo.toml'
-            open(ct, 'w').write(open(ct).read().replace('/repo/derive-ex/src/lib.rs', f'{REPO}/derive-ex/src/lib.rs'))
+            txt = open(ct).read().replace('/repo/derive-ex/src/lib.rs', f'{REPO}/derive-ex/src/lib.rs')
+            open(ct, 'w').write(txt)
         r = sh(['cargo', 'build', '--offline', '-q'], cwd=hdir, timeout=1800)
         self.harness_ok = r.returncode == 0
         self.harness_log = (r.stdout + r.stderr)[-6000:]
